@@ -372,7 +372,7 @@ def key_covers_inputs(fn: ast.AST, key: ast.AST, params: list[str]) -> tuple[boo
     for n in walk_no_nested(fn):
         if id(n) in key_nodes:
             continue
-        if isinstance(n, ast.Name) and isinstance(n.ctx, ast.Load) and n.id in params and n.id not in ('self', 'cls'):
+        if isinstance(n, ast.Name) and isinstance(n.ctx, ast.Load) and n.id in params and n.id != 'cls':
             if n.id in whole:
                 continue
             par = getattr(n, '_parent', None)
